@@ -3038,10 +3038,15 @@ class Partitions(Expr):
 
     def _simplify_down(self):
         from dask.dataframe.dask_expr import SetIndexBlockwise
+        from dask.dataframe.dask_expr._indexing import LocBase
         from dask.dataframe.tseries.resample import ResampleAggregation
 
+        # ``LocBase`` expressions (``.loc`` with a slice, list or element) drop the
+        # partitions outside of the selection, so output partition ``i`` is not
+        # computed from input partition ``i`` and the selection can't be pushed down
         if isinstance(self.frame, Blockwise) and not isinstance(
-            self.frame, (BlockwiseIO, Fused, SetIndexBlockwise, ResampleAggregation)
+            self.frame,
+            (BlockwiseIO, Fused, SetIndexBlockwise, ResampleAggregation, LocBase),
         ):
             operands = [
                 (
